@@ -6,6 +6,7 @@ from typing import Dict, List, Set
 
 from ..cfg import CFG, ENTRY, EXIT
 from ..core import AnalysisError, FunctionInfo, Project, dotted, is_const, kwarg, norm, param_names, walk_no_nested
+from .. import sym
 from ..util import assignments, count_negations, header_calls, header_walk, mentions, returns_of, stmt_text
 from .shared import MAT
 
@@ -213,27 +214,46 @@ def r3(ctx):
     P = ctx.project
     f = P.func("formulaic.transforms.contrasts.encode_contrasts")
     ctx.look(4)
-    lv = [v for n, v, _ in assignments(f.node) if n == "levels"]
-    ok = any(norm(v) == "levels if levels is not None else _state.get('categories')" for v in lv)
-    ctx.check(ok, "C09.R3", "levels are pinned from the recorded categories when not given explicitly", f.where, ctx.construct(f, text="pin levels"),
-              f"levels = {[norm(v) for v in lv]}")
-    br = [n for n in walk_no_nested(f.node) if isinstance(n, ast.If) and norm(n.test) == "levels is not None"]
-    if len(br) != 1:
-        raise AnalysisError("C09.R3: `if levels is not None` branch not found in encode_contrasts")
-    b = br[0]
-    extra = [s for s in b.body if isinstance(s, ast.Assign) and norm(s.targets[0]) == "extra_categories"]
-    ok = len(extra) == 1 and norm(extra[0].value) == "set(pandas.unique(data)).difference(levels)"
-    ctx.check(ok, "C09.R3", "extra categories = values present in the data but not among the levels", f.module.line(b), ctx.construct(f, text="extra categories"),
-              f"extra_categories = `{norm(extra[0].value) if extra else None}`")
-    warn = [s for s in b.body if isinstance(s, ast.If) and norm(s.test) == "extra_categories"]
-    ok = len(warn) == 1 and isinstance(warn[0].body[0], ast.Expr) and isinstance(warn[0].body[0].value, ast.Call) and dotted(warn[0].body[0].value.func) == "warnings.warn" \
-        and any(norm(a) == "DataMismatchWarning" for a in warn[0].body[0].value.args + [k.value for k in warn[0].body[0].value.keywords])
-    ctx.check(ok, "C09.R3", "unseen levels are announced with a DataMismatchWarning", f.module.line(b), ctx.construct(f, text="warn"),
-              "expected `if extra_categories: warnings.warn(..., DataMismatchWarning)`")
-    cat = [s for s in b.body if isinstance(s, ast.Assign) and norm(s.targets[0]) == "data"]
-    ok = len(cat) == 1 and norm(cat[0].value) == "pandas.Series(pandas.Categorical(data, categories=levels))" and (not warn or cat[0].lineno > warn[0].lineno)
-    ctx.check(ok, "C09.R3", "the categorical is built with the pinned levels (absent levels keep their columns, unseen ones add none)", f.module.line(b),
-              ctx.construct(f, text="Categorical(categories=levels)"), f"data = `{norm(cat[0].value) if cat else None}`")
+    try:
+        outs = [o for o in sym.outcomes(f.node) if o.kind == "return"]
+    except sym.Unmodelled as e:
+        raise AnalysisError(f"C09.R3: encode_contrasts cannot be summarised: {e}")
+    FV = "isinstance(data, FactorValues)"
+    REC = "_state.get('categories')"
+    # which levels are in force: explicit ones, else the recorded categories, else none (fit time)
+    scen = [("explicit levels", {FV: False, "levels is None": False}, "levels"),
+            ("recorded categories", {FV: False, "levels is None": True, f"{REC} is None": False}, REC)]
+    pinned_ok, extra_ok, warn_ok, cat_ok = True, True, True, True
+    seen = 0
+    for what, facts, L in scen:
+        EX = f"set(pandas.unique(data)).difference({L})"
+        for unseen in (True, False):
+            fx = dict(facts, **{EX: unseen})
+            sel = sym.select(outs, fx, kinds=("return",))
+            if not sel:
+                pinned_ok = False
+                continue
+            for o in sel:
+                seen += 1
+                conds = [norm(sym.simplify(c, fx)) for c, _ in o.conds]
+                if EX not in conds:
+                    extra_ok = False
+                warns = [e for e in o.effects if isinstance(e, ast.Expr) and isinstance(e.value, ast.Call) and dotted(e.value.func) == "warnings.warn"]
+                has = any(any(norm(a) == "DataMismatchWarning" for a in w.value.args + [k.value for k in w.value.keywords]) for w in warns)
+                if has != unseen:
+                    warn_ok = False
+                d = o.env.get("data")
+                if d is None or sym.pm_any([f"pandas.Series(pandas.Categorical(data, categories={L}))", f"pandas.Series(pandas.Categorical(data, {L}))"],
+                                           sym.simplify(d, fx)) is None:
+                    cat_ok = False
+    ctx.check(pinned_ok and seen > 0, "C09.R3", "levels are pinned from the recorded categories when not given explicitly", f.where, ctx.construct(f, text="pin levels"),
+              "the levels in force must be the explicit `levels`, else _state.get('categories'); some such case has no returning path")
+    ctx.check(extra_ok and seen > 0, "C09.R3", "extra categories = values present in the data but not among the levels", f.where, ctx.construct(f, text="extra categories"),
+              "expected the test set(pandas.unique(data)).difference(<levels in force>)")
+    ctx.check(warn_ok and seen > 0, "C09.R3", "unseen levels are announced with a DataMismatchWarning", f.where, ctx.construct(f, text="warn"),
+              "expected warnings.warn(..., DataMismatchWarning) exactly when the data holds values outside the levels in force")
+    ctx.check(cat_ok and seen > 0, "C09.R3", "the categorical is built with the pinned levels (absent levels keep their columns, unseen ones add none)", f.where,
+              ctx.construct(f, text="Categorical(categories=levels)"), "expected data = pandas.Series(pandas.Categorical(data, categories=<levels in force>))")
     # explicit `levels=` handed to encode_contrasts by the transforms that wrap it must be the user's choice, never derived from the data
     from ..util import derived_names
     n_calls = 0
